@@ -88,7 +88,8 @@ def body(ctx: Ctx) -> None:
     B.run(ctx)
     cache_writers(ctx)
     sess = r["session"]
-    uncontracted_mutators(ctx, {t for t, c in sess.contracts.items() if not c.trusted})
+    if sess is not None:
+        uncontracted_mutators(ctx, {t for t, c in sess.contracts.items() if not c.trusted})
     ctx.notes.append(
         "C03: per-mutator contracts (Wf preserved, whole-view postcondition, rejected edit changes "
         "nothing, cache cleared whenever content changes) + syntactic cache-writer obligation"
